@@ -252,7 +252,7 @@ theorem popB_frame (I : Inbox) (tag : Tag) (j : Nat) : FrameB j I (I.popB tag j)
   split
   · exact FrameB.refl j I
   · refine ⟨fun k hk => ?_, rfl⟩
-    simp [List.getD_eq_getElem?_getD, List.getElem?_set, Ne.symm hk]
+    simp [List.getD_eq_getElem?_getD, Ne.symm hk]
 
 theorem popB_frame' {I : Inbox} {tag : Tag} {j : Nat} {o : Option Int} {I1 : Inbox}
     (h : I.popB tag j = (o, I1)) : FrameB j I I1 := by
@@ -346,6 +346,60 @@ theorem genReadAnswers_step2 (G : Dkg.Grp) (st : GenSt) (j : Nat) (f : Nat) (I :
                   right; left
                   exact ⟨_, _, getUi v, hsub, hfr, h, hao, fun e => absurd e hw⟩
 
+theorem genReadAnswers_length (G : Dkg.Grp) (st : GenSt) (j : Nat) (f : Nat) (I : Inbox) (s sp : List Int)
+    (cm : List Nat) (I' : Inbox) (s' sp' : List Int) (cm' : List Nat)
+    (h : genReadAnswers G st j f I s sp cm = .ok (I', s', sp', cm')) :
+    s'.length = s.length ∧ sp'.length = sp.length := by
+  induction f generalizing I s sp cm with
+  | zero =>
+    simp only [genReadAnswers, Except.ok.injEq, Prod.mk.injEq] at h
+    obtain ⟨_, rfl, rfl, _⟩ := h
+    exact ⟨rfl, rfl⟩
+  | succ f ih =>
+    rcases genReadAnswers_step G st j f I s sp cm _ h with
+      ⟨I1, cm1, hR, hs⟩ | ⟨I3, cm1, hs, h'⟩ | ⟨I3, cm1, foo, bar, hs, _, h'⟩
+    · simp only [Prod.mk.injEq] at hR
+      obtain ⟨_, rfl, rfl, _⟩ := hR
+      exact ⟨rfl, rfl⟩
+    · exact ih _ _ _ _ h'
+    · have := ih _ _ _ _ h'
+      simpa using this
+
+theorem genReadAnswers_answered_acc (G : Dkg.Grp) (st : GenSt) (j : Nat) (f : Nat) (I : Inbox)
+    (s sp : List Int) (cm : List Nat) (acc : List Nat) (I' : Inbox) (s' sp' : List Int) (cm' : List Nat)
+    (hlen : s.length = sp.length) (hjlen : j < s.length)
+    (h : genReadAnswers G st j f I s sp cm = .ok (I', s', sp', cm')) (hj : j ∉ cm')
+    (hinv : st.i ∈ acc → Eq4F G st.i (getRow st.C j) (getI s j) (getI sp j))
+    (hans : st.i ∈ answeredOf st.n j f I acc) :
+    Eq4F G st.i (getRow st.C j) (getI s' j) (getI sp' j) := by
+  induction f generalizing I s sp cm acc with
+  | zero =>
+    simp only [genReadAnswers, Except.ok.injEq, Prod.mk.injEq] at h
+    obtain ⟨_, rfl, rfl, _⟩ := h
+    exact hinv (by simpa [answeredOf] using hans)
+  | succ f ih =>
+    rcases genReadAnswers_step2 G st j f I s sp cm _ acc h with
+      ⟨I1, cm1, hR, hs, _, ha⟩ | ⟨I3, cm1, who, hs, _, h', ha, hw⟩ |
+      ⟨I3, cm1, foo, bar, hs, _, he, h', ha⟩
+    · simp only [Prod.mk.injEq] at hR
+      obtain ⟨_, rfl, rfl, rfl⟩ := hR
+      rcases ha with ha | ⟨hjc, _⟩
+      · rw [ha] at hans
+        exact hinv hans
+      · exact absurd hjc hj
+    · rw [ha] at hans
+      refine ih _ _ _ _ _ hlen hjlen h' ?_ hans
+      intro hm
+      rcases List.mem_append.1 hm with hm | hm
+      · exact hinv hm
+      · have : st.i = who := by simpa using hm
+        exact absurd (genReadAnswers_mono G st j f _ _ _ _ _ _ _ _ h' j (hw this.symm)) hj
+    · rw [ha] at hans
+      refine ih _ _ _ _ _ (by simp [hlen]) (by simpa using hjlen) h' ?_ hans
+      intro _
+      rw [getI_set_self _ _ _ hjlen, getI_set_self _ _ _ (hlen ▸ hjlen)]
+      exact he
+
 /-- if dealer `j` answered the complaint of party `i` (the reader) and its answers do not disqualify
     it, the share the reader holds from `j` afterwards satisfies equation (4) -/
 theorem genReadAnswers_answered (G : Dkg.Grp) (st : GenSt) (j : Nat) (f : Nat) (I : Inbox) (s sp : List Int)
@@ -353,22 +407,105 @@ theorem genReadAnswers_answered (G : Dkg.Grp) (st : GenSt) (j : Nat) (f : Nat) (
     (hlen : s.length = sp.length) (hjlen : j < s.length)
     (h : genReadAnswers G st j f I s sp cm = .ok (I', s', sp', cm')) (hj : j ∉ cm')
     (hans : st.i ∈ answeredOf st.n j f I []) :
-    Eq4F G st.i (getRow st.C j) (getI s' j) (getI sp' j) := by
-  sorry
+    Eq4F G st.i (getRow st.C j) (getI s' j) (getI sp' j) :=
+  genReadAnswers_answered_acc G st j f I s sp cm [] I' s' sp' cm' hlen hjlen h hj
+    (fun hm => by cases hm) hans
 
 /-- a dealer that stays out of the complaint list of step 1(d) has answered every complaint recorded
     against it (one step of `genResolveGo`) -/
 theorem unanswered_nil_of_not_mem (st : GenSt) (j : Nat) (I : Inbox) (cm : List Nat)
     (hj : j ∉ cm ++ unanswered st j I) :
     ∀ c ∈ st.complainers.getD j [], c ∈ answeredOf st.n j (st.n + 1) I [] := by
-  sorry
+  intro c hc
+  refine Classical.byContradiction fun hn => hj (List.mem_append_right _ ?_)
+  unfold unanswered
+  exact List.mem_map.2 ⟨c, List.mem_filter.2 ⟨hc, by simpa using hn⟩, rfl⟩
 
 /-- the reads of sender `j` only consume the buffer of `j` -/
 theorem genReadAnswers_frame (G : Dkg.Grp) (st : GenSt) (j : Nat) (f : Nat) (I : Inbox) (s sp : List Int)
     (cm : List Nat) (I' : Inbox) (s' sp' : List Int) (cm' : List Nat)
     (h : genReadAnswers G st j f I s sp cm = .ok (I', s', sp', cm')) (k : Nat) (hk : k ≠ j) :
     I'.b.getD k [] = I.b.getD k [] ∧ I'.p = I.p := by
-  sorry
+  suffices hF : FrameB j I I' from ⟨hF.1 k hk, hF.2⟩
+  clear hk
+  induction f generalizing I s sp cm with
+  | zero =>
+    simp only [genReadAnswers, Except.ok.injEq, Prod.mk.injEq] at h
+    obtain ⟨rfl, _⟩ := h
+    exact FrameB.refl j _
+  | succ f ih =>
+    rcases genReadAnswers_step2 G st j f I s sp cm _ [] h with
+      ⟨I1, cm1, hR, _, hfr, _⟩ | ⟨I3, cm1, who, _, hfr, h', _⟩ |
+      ⟨I3, cm1, foo, bar, _, hfr, _, h', _⟩
+    · simp only [Prod.mk.injEq] at hR
+      obtain ⟨rfl, _⟩ := hR
+      exact hfr
+    · exact hfr.trans (ih _ _ _ _ h')
+    · exact hfr.trans (ih _ _ _ _ h')
+
+theorem genResolveGo_step (G : Dkg.Grp) (st : GenSt) (k : Nat) (rest : List Nat) (I : Inbox)
+    (s sp : List Int) (cm : List Nat) (R : Inbox × List Int × List Int × List Nat)
+    (h : genResolveGo G st (k :: rest) I s sp cm = .ok R) :
+    (∃ cm1, (∀ x ∈ cm, x ∈ cm1) ∧ (getN st.cnt k > st.t → k ∈ cm1) ∧
+      (getN st.cnt k > st.t ∨ k = st.i) ∧ genResolveGo G st rest I s sp cm1 = .ok R) ∨
+    (k ≠ st.i ∧ ∃ I1 s1 sp1 cm1,
+      genReadAnswers G st k (st.n + 1) I s sp cm = .ok (I1, s1, sp1, cm1) ∧
+      genResolveGo G st rest I1 s1 sp1 (cm1 ++ unanswered st k I) = .ok R) := by
+  simp only [genResolveGo] at h
+  split at h
+  · rename_i hc
+    left
+    exact ⟨_, fun x hx => List.mem_append_left _ hx, fun _ => by simp, Or.inl hc, h⟩
+  · rename_i hc
+    split at h
+    · rename_i hk
+      left
+      exact ⟨_, fun x hx => hx, fun hc' => absurd hc' hc, Or.inr hk, h⟩
+    · rename_i hk
+      right
+      refine ⟨hk, ?_⟩
+      simp only [bind, Except.bind] at h
+      cases hr : genReadAnswers G st k (st.n + 1) I s sp cm with
+      | error e => rw [hr] at h; cases h
+      | ok R1 =>
+        obtain ⟨I1, s1, sp1, cm1⟩ := R1
+        rw [hr] at h
+        exact ⟨_, _, _, _, rfl, h⟩
+
+theorem genResolveGo_mono (G : Dkg.Grp) (st : GenSt) (idx : List Nat)
+    (I : Inbox) (s sp : List Int) (cm : List Nat) (I' : Inbox) (s' sp' : List Int) (cm' : List Nat)
+    (h : genResolveGo G st idx I s sp cm = .ok (I', s', sp', cm')) :
+    ∀ x ∈ cm, x ∈ cm' := by
+  induction idx generalizing I s sp cm with
+  | nil =>
+    simp only [genResolveGo, Except.ok.injEq, Prod.mk.injEq] at h
+    obtain ⟨_, _, _, rfl⟩ := h
+    exact fun _ hx => hx
+  | cons k rest ih =>
+    rcases genResolveGo_step G st k rest I s sp cm _ h with
+      ⟨cm1, hs, _, _, h'⟩ | ⟨_, I1, s1, sp1, cm1, hr, h'⟩
+    · exact fun x hx => ih _ _ _ _ h' x (hs x hx)
+    · exact fun x hx => ih _ _ _ _ h' x
+        (List.mem_append_left _ (genReadAnswers_mono G st k _ _ _ _ _ _ _ _ _ hr x hx))
+
+theorem genResolveGo_other (G : Dkg.Grp) (st : GenSt) (idx : List Nat)
+    (I : Inbox) (s sp : List Int) (cm : List Nat) (I' : Inbox) (s' sp' : List Int) (cm' : List Nat)
+    (h : genResolveGo G st idx I s sp cm = .ok (I', s', sp', cm')) (j : Nat) (hj : j ∉ idx) :
+    getI s' j = getI s j ∧ getI sp' j = getI sp j := by
+  induction idx generalizing I s sp cm with
+  | nil =>
+    simp only [genResolveGo, Except.ok.injEq, Prod.mk.injEq] at h
+    obtain ⟨_, rfl, rfl, _⟩ := h
+    exact ⟨rfl, rfl⟩
+  | cons k rest ih =>
+    have hjk : j ≠ k := fun e => hj (e ▸ List.mem_cons_self)
+    have hjr : j ∉ rest := fun e => hj (List.mem_cons_of_mem _ e)
+    rcases genResolveGo_step G st k rest I s sp cm _ h with
+      ⟨cm1, _, _, _, h'⟩ | ⟨_, I1, s1, sp1, cm1, hr, h'⟩
+    · exact ih _ _ _ _ h' hjr
+    · have h1 := ih _ _ _ _ h' hjr
+      have h2 := genReadAnswers_other G st k _ _ _ _ _ _ _ _ _ hr j hjk
+      exact ⟨h1.1.trans h2.1, h1.2.trans h2.2⟩
 
 /-- **step 1(d), repaired code**: for every dealer `j ≠ i` in QUAL that party `i` complained about in
     step 1(b) (`i ∈ complainers[j]`), the share `i` holds from `j` after step 1(d) satisfies (4) -/
@@ -379,6 +516,39 @@ theorem genResolveGo_share_valid (G : Dkg.Grp) (st : GenSt) (idx : List Nat) (hn
     (j : Nat) (hjidx : j ∈ idx) (hji : j ≠ st.i) (hjlen : j < s.length) (hj : j ∉ cm')
     (hcompl : st.i ∈ st.complainers.getD j []) :
     Eq4F G st.i (getRow st.C j) (getI s' j) (getI sp' j) := by
-  sorry
+  induction idx generalizing I s sp cm with
+  | nil => cases hjidx
+  | cons k rest ih =>
+    have hnd' : rest.Nodup := (List.nodup_cons.1 hnd).2
+    have hkr : k ∉ rest := (List.nodup_cons.1 hnd).1
+    rcases genResolveGo_step G st k rest I s sp cm _ h with
+      ⟨cm1, _, hc, hor, h'⟩ | ⟨_, I1, s1, sp1, cm1, hr, h'⟩
+    · have hjk : j ≠ k := by
+        intro e
+        subst e
+        rcases hor with hc' | hk
+        · exact hj (genResolveGo_mono G st _ _ _ _ _ _ _ _ _ h' j (hc hc'))
+        · exact hji hk
+      have hjr : j ∈ rest := by
+        rcases List.mem_cons.1 hjidx with e | e
+        · exact absurd e hjk
+        · exact e
+      exact ih hnd' _ _ _ _ hlen h' hjr hjlen
+    · obtain ⟨hl1, hl2⟩ := genReadAnswers_length G st k _ _ _ _ _ _ _ _ _ hr
+      by_cases hjk : j = k
+      · subst hjk
+        have hjn : j ∉ cm1 ++ unanswered st j I :=
+          fun e => hj (genResolveGo_mono G st _ _ _ _ _ _ _ _ _ h' j e)
+        have hans := unanswered_nil_of_not_mem st j I cm1 hjn st.i hcompl
+        have hv := genReadAnswers_answered G st j _ _ _ _ _ _ _ _ _ hlen hjlen hr
+          (fun e => hjn (List.mem_append_left _ e)) hans
+        obtain ⟨e1, e2⟩ := genResolveGo_other G st _ _ _ _ _ _ _ _ _ h' j hkr
+        rw [e1, e2]
+        exact hv
+      · have hjr : j ∈ rest := by
+          rcases List.mem_cons.1 hjidx with e | e
+          · exact absurd e hjk
+          · exact e
+        exact ih hnd' _ _ _ _ (by rw [hl1, hl2, hlen]) h' hjr (by rw [hl1]; exact hjlen)
 
 end Tmcg.DkgP
